@@ -8,6 +8,7 @@ from units import U
 import props.c03_hare as c03_hare
 
 ID = 'C03'
+ZERO_LABELS = {'corpus', 'random', 'boundary'}      # streams asked also with candidates numbered from 0 (harness/common.py LABEL_MODE)
 LEVEL = 'proof'
 TIE = {'sequential.TransferableVoteDistributor / TransferableVoteSelector, initial_allocation': 'correspondence (count by count)',
        'transfer.ranked_next / SimpleVoteTransferer / Gregory': 'correspondence (count by count)',
